@@ -775,8 +775,16 @@ func handleBitwise(left, right interface{}, operator token.Token) interface{} {
 	case token.XOR:
 		return leftInt ^ rightInt
 	case token.LEFT_SHIFT:
+		if rightInt < 0 {
+			utils.RuntimeError(operator, "Shift count must not be negative.")
+			return nil
+		}
 		return leftInt << rightInt
 	case token.RIGHT_SHIFT:
+		if rightInt < 0 {
+			utils.RuntimeError(operator, "Shift count must not be negative.")
+			return nil
+		}
 		return leftInt >> rightInt
 	case token.POWER:
 		return int64(math.Pow(float64(leftInt), float64(rightInt)))
